@@ -14,13 +14,18 @@ CONSTANTS MaxLen, Defect
 Ops == {"quantise", "quantise_note_lengths", "normalise", "quantise_and_normalise", "pad", "cutoff", "scale", "scale_requantise",
         "transpose", "transpose_wrap", "set_channel", "merge", "concatenate", "split_rejoin", "copy",
         "bar_construct", "bars_roundtrip", "bars_roundtrip_requantise", "composition_roundtrip", "token_roundtrip",
-        "save_load", "quantise_helper_grid", "note_lengths_helper_grid", "token_roundtrip_plain"}
+        "save_load", "quantise_helper_grid", "note_lengths_helper_grid", "token_roundtrip_plain",
+        "token_roundtrip_plain_ppqn48", "token_roundtrip_unfused_tail"}
+(* token_roundtrip_plain_ppqn48: a tokeniser built with an explicit integer resolution other than the library's and the
+   default grids; token_roundtrip_unfused_tail: unfused running values, bar-by-bar calls with a carried state, only the
+   tokens of the later calls are detokenised (the stream then starts without value / velocity / track tokens) *)
 (* the *_helper_grid operations take their step sizes / note values from the library's own duration helpers
    (get_default_step_sizes, get_note_durations, get_tuplet_durations, get_dotted_note_durations) with integer arguments
    other than the defaults *)
 (* operations that build bars pad short sequences to the bar length *)
-BarBuilding == {"bar_construct", "bars_roundtrip", "bars_roundtrip_requantise", "composition_roundtrip", "token_roundtrip"}
-Tokenising == {"token_roundtrip", "token_roundtrip_plain"}
+BarBuilding == {"bar_construct", "bars_roundtrip", "bars_roundtrip_requantise", "composition_roundtrip", "token_roundtrip",
+                "token_roundtrip_unfused_tail"}
+Tokenising == {"token_roundtrip", "token_roundtrip_plain", "token_roundtrip_plain_ppqn48", "token_roundtrip_unfused_tail"}
 
 VARIABLES kinds, tokenKinds, hist
 vars == <<kinds, tokenKinds, hist>>
